@@ -212,7 +212,8 @@ def check_one(seed):
     if differs and set(ur) == set(ue) and all(abs(ur[k] - ue[k]) <= TOL for k in ur):
         # the same lists up to the order of their elements
         neg = "\\+" in case["kind"] or case["kind"] in ("r(X)", "m(X)")
-        out["violations"].append(("list-order:negation" if neg else "list-order",
+        shared = case["kind"] == "s(X)"      # every solution goes through the shared subgoal t (same root as C13 self-join)
+        out["violations"].append(("list-order:negation" if neg else ("list-order:shared-subgoal" if shared else "list-order"),
                                   "the reported lists %s have the elements of the expected lists %s in another order"
                                   % (sorted((k, round(v, 6)) for k, v in res.items() if v > TOL),
                                      sorted((k, round(float(v), 6)) for k, v in exp.items()))))
